@@ -542,8 +542,10 @@ impl<'p> From<&'p Program> for ControlFlowGraph<'p> {
                             instruction_index_offset,
                             terminator: BasicBlockTerminator::Continue,
                         };
-                        // +1 for the label
-                        instruction_index_offset += block.instructions.len() + 1;
+                        // +1 for the closed block's own label, if it has one; the label being
+                        // processed now belongs to the next block
+                        instruction_index_offset +=
+                            block.instructions.len() + usize::from(block.label.is_some());
                         graph.blocks.push(block);
                     }
 
